@@ -80,6 +80,8 @@ class RespRun:
         self.model = rp.ResponderModel()
         self.queries: List[Dict[str, Any]] = []
         self.sightings: Dict[Tuple, List[Tuple[float, float, int]]] = {}
+        self.arrivals: List[Dict[str, Any]] = []
+        self._wire: Optional[Dict[Tuple, List[Tuple[float, float, int]]]] = None
         self.sends: List[Dict[str, Any]] = []
         self.infos: List[Any] = []
         self.host: Optional[sim.Host] = None
@@ -93,6 +95,52 @@ class RespRun:
         self.excluded_f12 = 0
 
     # -- helpers -----------------------------------------------------------------------------------
+    def wire_sightings(self) -> Dict[Tuple, List[Tuple[float, float, int]]]:
+        """Sightings judged from the datagrams that arrived on the host's sockets (its own multicasts loop back), independent of
+        the record manager: every response record with its TTL (pointer floor applied), except in a datagram that is byte-identical
+        to the previous datagram handled on that socket less than a second before (the listener's documented duplicate guard,
+        which C11-C13 count as "not seen")."""
+        if self._wire is not None:
+            return self._wire
+        out: Dict[Tuple, List[Tuple[float, float, int]]] = {}
+        last: Dict[int, Tuple[bytes, float]] = {}
+        for a in self.arrivals:
+            prev = last.get(a['sock'])
+            if prev is not None and prev[0] == a['data'] and a['t_ms'] - 1000 < prev[1]:
+                m0 = None
+                try:
+                    m0 = wire.strict_decode_lenient_len(a['data'])
+                except wire.Reject:
+                    pass
+                if m0 is None or m0['flags'] & 0x8000 or not any(q_['cls'] & 0x8000 for q_ in m0['qd']):
+                    continue          # dropped unseen (a repeated QU query is let through and becomes the new reference)
+            last[a['sock']] = (a['data'], a['t_ms'])
+            try:
+                m = wire.strict_decode_lenient_len(a['data'])
+            except wire.Reject:
+                continue
+            if not m['flags'] & 0x8000:
+                continue
+            for r in m['an'] + m['ns'] + m['ar']:
+                ident = rp.ident_of_wire_rr(r)
+                if ident is None:
+                    continue
+                ttl = r['ttl']
+                if r['type'] == 12 and 0 < ttl < 1125:
+                    ttl = 1125
+                out.setdefault(ident, []).append((a['t_ms'], ttl, a['g']))
+        self._wire = out
+        return out
+
+    def last_wire_sighting(self, ident: Tuple, before_g: int) -> Optional[Tuple[float, float, int]]:
+        best = None
+        for s in self.wire_sightings().get(ident, []):
+            if s[2] < before_g:
+                best = s
+        if best is not None and best[1] == 0:
+            return None
+        return best
+
     def last_sighting(self, ident: Tuple, before_g: int) -> Optional[Tuple[float, float, int]]:
         """Last (now_ms, ttl_eff, g) with g < before_g at which the host was shown `ident`; a TTL-0 showing clears."""
         best = None
@@ -178,6 +226,22 @@ class RespRun:
                 pass
 
         host.zc.async_add_listener(Spy(), None)
+
+        class Tap:
+            """records what arrives on a socket before the library sees it"""
+
+            def __init__(self, proto: Any, fileno: int) -> None:
+                self._proto, self._fileno = proto, fileno
+
+            def datagram_received(self, data: bytes, addr: Any) -> None:
+                run.arrivals.append({'t_ms': w.now_ms, 'g': w.gseq, 'data': bytes(data), 'sock': self._fileno})
+                self._proto.datagram_received(data, addr)
+
+            def __getattr__(self, name: str) -> Any:
+                return getattr(self._proto, name)
+
+        for ep_ in host.endpoints:
+            ep_.proto = Tap(ep_.proto, ep_.sock.fileno())
         for d in self.sc['services']:
             if d.get('late'):
                 self.infos.append(None)        # registered by a 'register' event, its announcements not awaited
@@ -230,6 +294,9 @@ class RespRun:
         await asyncio.sleep(self.sc.get('tail_ms', 2500) / 1000.0)
         for t in getattr(self, 'late_tasks', []):
             if t.done() and not t.cancelled() and t.exception() is not None:
+                if any(e['kind'] == 'close' for e in self.api_events) and type(t.exception()).__name__ in (
+                        'NotRunningException', 'NonUniqueNameException', 'EventLoopBlocked'):
+                    continue      # the instance was closed while the registration was under way: a documented outcome
                 raise HarnessError(f'background registration failed: {t.exception()!r}')
 
     def _src(self, ev: Dict[str, Any]) -> Tuple:
@@ -312,7 +379,10 @@ class RespRun:
 
             async def late_register() -> None:
                 info = sim.make_service_info(d)
-                await host.azc.async_register_service(info)      # returns after probing; the announcements go on in a task
+                if d.get('ttl_arg') is not None:
+                    await host.azc.async_register_service(info, ttl=d['ttl_arg'])
+                else:
+                    await host.azc.async_register_service(info)      # returns after probing; the announcements go on in a task
                 self.infos[k] = info
                 self.model.register(d)
                 w.gseq += 1
